@@ -2078,6 +2078,12 @@ macro_rules! ba_ops {
                 }
             };
             check("collect", x, a.clone());
+            // constructors that fill a whole array must leave the padding bits of the last byte zero as well
+            check("expand_one", <$ba as crate::ff::Expand<Boolean>>::expand(&Boolean::ONE), vec![Boolean::ONE; N]);
+            check("expand_zero", <$ba as crate::ff::Expand<Boolean>>::expand(&Boolean::ZERO), vec![Boolean::ZERO; N]);
+            check("expand_bit", <$ba as crate::ff::Expand<Boolean>>::expand(&c), vec![c; N]);
+            check("from_fn", <$ba as crate::secret_sharing::SharedValueArray<Boolean>>::from_fn(|i| a[i]), a.clone());
+            check("try_from_vec", <$ba>::try_from(a.clone()).unwrap(), a.clone());
             check("add", x + y, zipw(&a, &b, |p, q| p + q));
             check("add_ref", x + &y, zipw(&a, &b, |p, q| p + q));
             check("ref_add_ref", &x + &y, zipw(&a, &b, |p, q| p + q));
